@@ -316,6 +316,9 @@ def run(tier, seed):
     res.trusted = ["CPython on proxies", "vf/sym proxies' effect log", "dask (bounded part)"]
     agg = Agg(res, "C12")
     deductive(res, agg)
+    # models that wrap an inner EOF hand the user's compute flag on (a dropped flag means an eager inner fit)
+    from props.C07 import deductive_inner_models
+    deductive_inner_models(res, agg, aspects=("deferral",))
     agg.flush()
     run_bounded(res, tier, seed)
     return res
